@@ -58,6 +58,16 @@ pub fn common_labels(ix: &Index) -> Vec<String> {
     if ix.conns.values().filter(|c| c.session_present == Some(false)).count() >= 2 {
         add("session_lost_again");
     }
+    {
+        let rms: Vec<Option<u16>> = ix.conns.values().filter_map(|c| c.connack.as_ref().filter(|k| k.reason == 0).map(|k| k.receive_maximum)).collect();
+        if rms.windows(2).any(|w| w[0].unwrap_or(65535) > w[1].unwrap_or(65535)) {
+            add("receive_maximum_lowered_on_reconnect");
+        }
+        let lim: Vec<_> = ix.conns.values().filter_map(|c| c.connack.as_ref().filter(|k| k.reason == 0).map(|k| (k.maximum_qos, k.maximum_packet_size, k.topic_alias_maximum, k.retain_available))).collect();
+        if lim.windows(2).any(|w| w[0] != w[1]) {
+            add("server_limits_changed_on_reconnect");
+        }
+    }
     if tr.adversarial_used {
         add("adversarial");
     }
@@ -137,6 +147,21 @@ pub fn common_labels(ix: &Index) -> Vec<String> {
     }
     if tr.emitted.iter().any(|e| matches!(e.pkt, rf::Packet::Pingreq)) {
         add("pingreq");
+    }
+    {
+        let pids: Vec<u16> = tr
+            .emitted
+            .iter()
+            .filter_map(|e| match &e.pkt {
+                rf::Packet::Publish(p) if p.qos > 0 => p.pid,
+                rf::Packet::Subscribe(s) => Some(s.pid),
+                rf::Packet::Unsubscribe(u) => Some(u.pid),
+                _ => None,
+            })
+            .collect();
+        if pids.iter().any(|p| *p >= 65520) && pids.iter().any(|p| *p <= 64) {
+            add("packet_id_wraparound");
+        }
     }
     if tr.evs.iter().any(|e| matches!(e, Ev::Surfaced { what: Surf::Publish { .. }, .. })) {
         add("inbound_publish");
